@@ -18,7 +18,7 @@ from fractions import Fraction
 
 import numpy as np
 
-from common import COQ, REPO, VERIF, coq_bool, coq_list, coq_nat, qc, qc_list, sh
+from common import COQ, REPO, VERIF, coq_bool, coq_list, coq_nat, qc, qc_list, sh, source_pins
 
 TRUSTED_BASE = [
     "Coq 8.16.1 kernel + coqc (vm_compute only in the correspondence shards and two non-vacuity examples; no native_compute)",
@@ -55,6 +55,32 @@ BUILD_ORDER = ["lib/Sums.v", "lib/QcInst.v", "C06/Base.v", "gen/C06_Gen.v", "C06
                "C12/Base.v", "gen/C12_Gen.v", "C12/Model.v", "C12/Lemmas.v", "C12/Props.v", "C12/Corr.v"]
 PRE = ("From Coq Require Import ZArith QArith Qcanon List Bool Arith.\nFrom AV.lib Require Import QcInst.\n"
        "From AV.C12 Require Import Base Model Corr.\nFrom AV.gen Require Import C12_Gen.\nImport ListNotations.\n")
+
+# Functions the HAND-WRITTEN parts (coq/C12/Model.v: recentre / move / the Species record / temp_arg, freq_arg; the harness'
+# split of the frequency list and its reading of h_cont / g_cont / masses) were written from and that tr/translate_c12.py
+# neither regenerates nor pins structurally.  (Regenerated or pinned by the translator, hence NOT listed: every formula
+# function of igm.py incl. _moi_about_com and _grimme_w, the S/U/H/G statements and guards of calculate_thermo_cont,
+# _ThermoParams.__init__, LFMethod, SIConstants, Atoms.moi, Atoms.com, AtomCollection.weight / n_atoms, Species.sn,
+# the first statement and the species.* calls of symmetry_number, Species.calc_thermo's temp handling,
+# calc_g_cont / calc_h_cont, constants.py and units.py.)
+PINS = [
+    ("autode/species/species.py", "Species.translate"),          # symmetry_number's only mutation: r -> r + vec per atom (Model.recentre)
+    ("autode/atoms.py", "Atom.translate"),
+    ("autode/atoms.py", "Atom.mass"), ("autode/atoms.py", "Atom.weight"),      # am : the atomic weight in amu
+    ("autode/atoms.py", "Atom.coord"),
+    ("autode/atoms.py", "AtomCollection.com"), ("autode/atoms.py", "AtomCollection.moi"),   # species.com / species.moi = atoms.com / atoms.moi
+    ("autode/atoms.py", "AtomCollection.atoms"),
+    ("autode/species/species.py", "Species.vib_frequencies"),    # sp_vib: frequencies[6:] ([5:] when linear)
+    ("autode/species/species.py", "Species.frequencies"),
+    ("autode/species/species.py", "Species.is_linear"),          # ORACLE sp_linear: delegates to Atoms.are_linear
+    ("autode/species/species.py", "Species.h_cont"), ("autode/species/species.py", "Species.g_cont"),   # what is observed
+    ("autode/values.py", "Energies.last"),
+    ("autode/values.py", "Frequency.real"), ("autode/values.py", "Frequency.is_imaginary"),   # identity on the positive model frequencies
+    ("autode/values.py", "Frequency.__init__"), ("autode/values.py", "Temperature.__init__"),  # default units cm-1 / K (Model.freq_arg, temp_arg)
+    ("autode/values.py", "Mass.__init__"),
+    ("autode/values.py", "Value.__init__"), ("autode/values.py", "_units_init"), ("autode/values.py", "Value.to"),   # Value(Value) keeps its unit
+    ("autode/values.py", "ValueArray.to"), ("autode/values.py", "ValueArray.__new__"),   # species.moi.to(...), com.to(...), coord.to(...)
+]
 
 TOL_HA = 1e-9
 METHODS = ["igm", "truhlar", "grimme", "minenkov"]
@@ -793,6 +819,10 @@ def run(ctx):
     import logging
     logging.disable(logging.CRITICAL)
     full = not ctx.quick
+    pins_changed = source_pins(ctx.pid, PINS)
+    ctx.cov["source_pins"] = {"pinned": len(PINS), "changed": pins_changed}
+    if pins_changed:
+        ctx.log("source pins changed:", pins_changed)
     # 1. regenerate the models from the repository (C06_Gen is needed by the units statement)
     rc0, out0 = sh(["python3", f"{VERIF}/tr/translate_units.py"], timeout=120)
     rc, out = sh(["python3", f"{VERIF}/tr/translate_c12.py"], timeout=120)
@@ -973,6 +1003,9 @@ def run(ctx):
                           {"kind": "untranslatable", "translator_output": (out0 + out)[-1500:]}, found_input=False)
     elif not proofs_ok:
         ctx.proof_failure(info, found_any_input=(unknown > 0))
+    if pins_changed and len(ctx.violations) == 0 and not (corr_bad or corr_err):
+        ctx.violation("hand model no longer pinned to the source: " + ", ".join(pins_changed),
+                      {"kind": "source-pin", "changed": pins_changed}, found_input=False)
     if corr_bad or corr_err:
         if unknown == 0 and len(ctx.violations) == 0:
             ctx.violation("generated model and implementation disagree (stream model-vs-impl) and no property-level oracle failed",
